@@ -148,7 +148,7 @@ func runC06(p *core.Program, r *core.Report) {
 	sort.Strings(hn)
 	r.Analysed["fresh_returning_helpers"] = hn
 
-	memF, limF := vm.Fields["memory"], vm.Fields["limit"]
+	memF, limF := vm.RoleField("memory"), vm.RoleField("limit")
 	if memF == nil || limF == nil {
 		// identify by role: the two int fields compared with each other in a panicking if
 		r.Unk("R6.4", "vm.VM/counter and limit fields", "", "fields `memory` and `limit` not found in vm.VM")
